@@ -414,7 +414,8 @@ theorem build_with_ignores_names (f : Nat → Nat) (extra : List Req) (g : PGrap
   refine ⟨?_, adaptGraph_rename genFacts f extra g⟩
   simp only [buildModelWith, opsetsOf, reqGraph_rename]
 
-/-- `_adapt.py` and `_graph.py` keep no state that outlives a build: no module-level binding, no `global`,
+/-- `_adapt.py` and `_graph.py` keep no state that outlives a build (and the other files a build passes through no
+    mutable default argument, caching decorator or `global`): no module-level binding, no `global`,
     no caching decorator, no mutable default argument, no mutable class attribute (inventory regenerated
     from the source on every run). A module-level cache of adapted protos makes this fail to build. -/
 theorem adaptation_keeps_no_state : Generated.OpsetFacts.adaptState = [] := by decide
